@@ -36,6 +36,14 @@ IsBuilder(objs, id) == id \in DOMAIN objs /\ objs[id].k = "builder"
 IsSlice(objs, id)   == id \in DOMAIN objs /\ objs[id].k = "slice"
 IsCell(objs, id)    == id \in DOMAIN objs /\ objs[id].k = "cell"
 
+\* a pruned branch (t = 1: 0x01, mask, one 32-byte hash and one 2-byte depth per significant level) is as deep as the deepest tree it
+\* stands for - the limit holds at every level; other special cells are not derived inside the pool
+PrunedDepth(b) ==
+    LET y == BitsToBytes(b)
+        m == IF Len(y) >= 2 THEN y[2] ELSE 0
+        n == (m % 2) + ((m \div 2) % 2) + ((m \div 4) % 2)
+    IN IF n = 0 \/ Len(y) < 2 + 34 * n THEN 0
+       ELSE FoldLeft(Max2, 0, [j \in 1..n |-> 256 * y[2 + 32 * n + 2 * j - 1] + y[2 + 32 * n + 2 * j]])
 DepthOver(objs, refs) == IF refs = <<>> THEN 0 ELSE 1 + FoldLeft(Max2, 0, [j \in 1..Len(refs) |-> objs[refs[j]].d])
 
 \* ------------------------------------------------------------------ TL-B encodings
@@ -183,7 +191,11 @@ Do(objs, c) ==
             ELSE Yes(With(objs, c.new, Obj("cell", 0, b, c.refs, d)), [new |-> c.new])
       \* ---- slice derivations
       [] c.op = "slice_to_cell" ->
-            LET o == objs[c.obj] IN Yes(With(objs, c.new, Obj("cell", o.t, o.b, o.r, DepthOver(objs, o.r))), [new |-> c.new])
+            \* (a special cell re-made from a slice over special data, possibly read in part, is whatever the constructor makes of it:
+            \* the properties speak about ordinary cells here; only the frame condition is demanded)
+            LET o == objs[c.obj] IN
+            IF o.t # 0 THEN Unspec
+            ELSE Yes(With(objs, c.new, Obj("cell", o.t, o.b, o.r, DepthOver(objs, o.r))), [new |-> c.new])
       [] c.op = "slice_copy" ->
             LET o == objs[c.obj] IN Yes(With(objs, c.new, o), [new |-> c.new])
       [] c.op = "slice_to_builder" ->
